@@ -88,8 +88,10 @@ func (g *Global) String() string {
 
 // Type returns the type of the global variable.
 func (g *Global) Type() types.Type {
-	// Cache type if not present.
-	if g.Typ == nil {
+	// Cache type if not present. The address space can only be set through the
+	// AddrSpace field, after the constructor has cached the type; a cached type
+	// of another address space is replaced (not edited: it may be shared).
+	if g.Typ == nil || g.Typ.AddrSpace != g.AddrSpace {
 		g.Typ = types.NewPointer(g.ContentType)
 		g.Typ.AddrSpace = g.AddrSpace
 	}
